@@ -19,7 +19,7 @@ pkgdir=server
 grep -q "^package protocol" "$demo_file" && pkgdir=protocol
 grep -q "^package client" "$demo_file" && pkgdir=client
 run=$(grep -o "func Test[A-Za-z0-9_]*" "$demo_file" | head -1 | sed 's/func //')
-prefix=$(echo "$run" | sed 's/\(TestSeedC[0-9]*[a-f]\).*/\1/')
+prefix=$(echo "$run" | sed 's/\(TestSeedC[0-9]*[a-z]\).*/\1/')
 cp "$demo_file" "$pkgdir/"
 # without patch
 go test -vet=off -count=1 -run "$prefix" ./$pkgdir/ > "$out/$id.clean.log" 2>&1; clean_rc=$?
